@@ -407,7 +407,21 @@ def gen_cases(rng, tier):
         cases.append(g_botmsg(rng))
     cases.extend(gen_e2e(rng, n_e2e))
     cases.extend(gen_quote(rng, n_quote))
+    for _ in range(n_act // 10):
+        cases.append({"kind": "act", "task": "gen_events", "prompts": "instruct", "s": "", "script": g_step_script(rng)})
     return [c for c in cases if c["kind"] != "act" or len(c["s"]) <= 4000]
+
+
+def g_step_script(rng):
+    """behaviour of `_compute_next_steps` as a table keyed by len(events) - base: "raise" or the event types it returns"""
+    def outcome():
+        if rng.random() < 0.1:
+            return "raise"
+        return [rng.choice(["X", "X", "X", "Listen", "hide_prev_turn"]) for _ in range(rng.choice([0, 1, 1, 2, 3]))]
+    n = rng.choice([0, 1, 2, 3, 5, 8])
+    keys = sorted(rng.sample(range(12), n))
+    return {"base": rng.choice([1, 2, 3]), "table": [[k, outcome()] for k in keys],
+            "default": rng.choice(["raise", [], ["X"], ["X"], ["Listen"], ["X", "X", "X"], ["hide_prev_turn"], ["X", "Listen"]])}
 
 
 def g_botmsg(rng):
@@ -637,6 +651,8 @@ def act_impl(case):
                     obs["last_prompt_line"] = pr.strip().split("\n")[-1]
                 elif isinstance(pr, list) and pr and isinstance(pr[-1].get("content"), str):
                     obs["last_prompt_line"] = pr[-1]["content"].strip().split("\n")[-1]
+    if task == "gen_events":
+        obs.update(gen_events_impl(case))
     if task in ("ms_next_step", "ms_start_flow", "v2_from_instructions", "v2_from_name", "v2_continuation", "v2_intent_and_action", "v2_flow_nld"):
         with contextlib.redirect_stdout(io.StringIO()):
             obs.update(gen_impl(case, llm))
@@ -668,6 +684,41 @@ def _try_parse(content):
         return False
     except Exception:  # noqa
         return False
+
+
+def _canon_type(t):
+    return t if t in ("Listen", "hide_prev_turn", "BotIntent") else "X"
+
+
+def gen_events_impl(case):
+    """the real `RuntimeV1_0.generate_events` loop with `_compute_next_steps` replaced by the step table of the case"""
+    app = _app("v1", case["prompts"])
+    rt = app.runtime
+    sc = case["script"]
+    base = sc["base"]
+    table = {k: o for k, o in sc["table"]}
+
+    class Boom(Exception):
+        pass
+
+    async def scripted(events, processing_log):
+        o = table.get(len(events) - base, sc["default"])
+        if o == "raise":
+            raise Boom()
+        return [{"type": t} for t in o]
+
+    rt._compute_next_steps = scripted
+    try:
+        with contextlib.redirect_stdout(io.StringIO()):
+            res = _run(rt.generate_events([{"type": "X0"} for _ in range(base)]))
+        out = {"res": "ok", "events": [_canon_type(e.get("type")) for e in res]}
+    except Boom:
+        out = {"res": "raised"}
+    except Exception as e:  # noqa
+        out = {"res": "too_many"} if str(e) == "Too many events." else {"res": "other:" + type(e).__name__}
+    finally:
+        del rt._compute_next_steps
+    return {"parser": "none", "gen_events": out}
 
 
 def gen_impl(case, llm):
@@ -841,6 +892,8 @@ def model_requests(case, obs):
                 {"m": "C17.gen", "s": case["s"], "parser": obs.get("parser", "none"), "uuid": UUID[:8], "name": obs.get("name", "x"), "last_prompt_line": obs.get("last_prompt_line", "\x00none"), "lit": obs.get("lit", "raised")}]
         if case["task"] == "ms_next_step":
             reqs.append({"m": "C17.ms", "s": case["s"], "parser": obs.get("parser", "none"), "parses": obs["parses"]})
+        if case["task"] == "gen_events":
+            reqs.append({"m": "C17.genloop", "base": case["script"]["base"], "table": case["script"]["table"], "default": case["script"]["default"]})
         if case["task"] == "ms_start_flow" and obs.get("src") is not None:
             rq = {"m": "C17.msflow", "flow_id": obs["flow_id"], "body": case["s"], "next_raised": "err" in obs["start_flow"] and obs["start_flow"]["err"] != "Hang" and obs.get("parse_flows") == [obs["flow_id"]]}
             if obs.get("parse_flows") is not None:
@@ -903,6 +956,12 @@ def compare(case, obs, mouts):
                 return f"intent_and_action: implementation {v!r} model {g['intent_and_action']!r}"
             if isinstance(v, dict) and "err" in v:
                 return f"generate_user_intent_and_bot_action raised {v}, the model never does"
+        if "gen_events" in obs:
+            # generate_events loop: as-is model everywhere; where the as-is model raises (step raised / 100-event valve: the two
+            # open findings) the repaired behaviour is accepted as well
+            real, a, r = obs["gen_events"], mouts[2]["as_is"], mouts[2]["repaired"]
+            if real != a and not (a["res"] in ("raised", "too_many") and real == r):
+                return f"generate_events loop: implementation {real!r} model as-is {a!r} repaired {r!r}"
         if "ms" in obs:
             mm = mouts[2]
             if obs["ms"] != mm:
@@ -920,7 +979,7 @@ def compare(case, obs, mouts):
                 real = "raised" if "err" in r else ("fallback" if r["ok"] == [enc("BotIntent:general response")] else "next")
                 if mouts[2]["res"] != real and not (real == "fallback" and mouts[2]["res"] == "next" and obs.get("parse_flows") == [obs["flow_id"]]):
                     return f"_process_start_flow try/except: parser behaviour {obs.get('parse_flows')!r} (None = raised), implementation {real}, model {mouts[2]['res']}"
-        obs = {kk: vv for kk, vv in obs.items() if kk not in ("from_instructions", "from_name", "continuation", "from_nld", "value_v2", "user_intent_v2", "intent_and_action", "ms", "start_flow", "parses", "src", "flow_id", "parses_flow", "parse_flows", "name", "last_prompt_line", "lit", "wrapper")}
+        obs = {kk: vv for kk, vv in obs.items() if kk not in ("from_instructions", "from_name", "continuation", "from_nld", "value_v2", "user_intent_v2", "intent_and_action", "ms", "start_flow", "parses", "src", "flow_id", "parses_flow", "parse_flows", "name", "last_prompt_line", "lit", "wrapper", "gen_events")}
     if k in ("fn", "act"):
         for key, v in obs.items():
             if key in ("parser", "nonascii"):
@@ -1148,6 +1207,8 @@ def _bad_turn_text(case, obs, msg):
 
 def nontrivial(case, obs):
     k = case["kind"]
+    if k == "act" and case.get("task") == "gen_events":
+        return bool(case["script"]["table"]) or case["script"]["default"] != ["Listen"]
     if k in ("fn", "act", "botmsg"):
         s = case["s"]
         return "\n" in s or any(p.strip() and p in s for p in PREFIXES) or any(t in s for t in TEMPLATES) or "\"" in s
@@ -1174,6 +1235,8 @@ def tags(case, obs):
         t.append("parser:" + obs.get("parser", "?"))
         if "wrapper" in obs:
             t.append("literal_eval:" + obs["lit"] + "->" + obs["wrapper"])
+        if "gen_events" in obs:
+            t.append("gen_events:" + obs["gen_events"]["res"])
         for key, v in obs.items():
             if isinstance(v, dict) and "err" in v:
                 t.append(f"{key}:err:{v['err']}")
